@@ -36,7 +36,7 @@ MECHANISMS = [
     ('TotalDepth.LIS.core.EngVal', 'EngVal.__truediv__'), ('TotalDepth.LIS.core.EngVal', 'EngVal.__lt__'),
     ('TotalDepth.LIS.core.EngVal', 'EngVal.__eq__'),
 ]
-REQUIRED_MONITORS = ['affine_oracle', 'round_trip', 'identity', 'transitivity', 'array_vs_scalar', 'refusal_cross_dimension',
+REQUIRED_MONITORS = ['affine_oracle', 'round_trip', 'identity', 'transitivity', 'array_vs_scalar', 'large_array_vs_pieces', 'refusal_cross_dimension',
                      'lis_affine_oracle', 'lis_round_trip', 'lis_transitivity', 'lis_refusal',
                      'engval_arithmetic', 'engval_comparison', 'engval_refusal', 'eventlog:LIS.Units.convert']
 MIN_NONTRIVIAL = {'quick': 700000, 'thorough': 3500000}
@@ -176,6 +176,38 @@ class Osdd:
                 self.pairs.clear()
                 self.pairs[k] = p
         return p
+
+    def large_arrays(self, n_cases):
+        """Array conversion of large arrays (beyond any block / buffer size an implementation might use) against the same
+        conversion applied to small pieces, which the pair sweep validates against the exact oracle."""
+        U, np, rng = self.U, self.np, self.rng
+        dims = [us for us in self.by_dim.values() if len(us) >= 2]
+        for _ in range(n_cases):
+            us = rng.choice(dims)
+            a, b = rng.choice(us), rng.choice(us)
+            ua, ub = self.real[a.code], self.real[b.code]
+            n = rng.choice([65535, 65536, 65537, 70001, 131071, 131073, 262145, 300001])
+            shape = rng.choice([(n,), (n,), (n // 7 + 1, 7), (3, n // 3 + 1)])
+            src = np.array([rng.uniform(-1000, 5000) for _ in range(997)])
+            big = np.resize(src, shape).astype('float64')
+            flat = big.reshape(-1)
+            piece = np.concatenate([U.convert_array(flat[i:i + 1000].copy(), ua, ub) for i in range(0, flat.size, 1000)])
+            self.rec.mon('large_array_vs_pieces')
+            self.rec.case(('large-array', a.code, b.code, shape), True, classes=['large-array'])
+            out = U.convert_array(big.copy(), ua, ub)
+            inp = big.copy()
+            U.convert_array_inplace(inp, ua, ub)
+            for fname, got in (('convert_array', out), ('convert_array_inplace', inp)):
+                g = np.asarray(got).reshape(-1)
+                if g.shape == piece.shape:
+                    bad = np.nonzero(~(np.abs(g - piece) <= 16 * np.finfo(float).eps * np.maximum(np.abs(piece), np.abs(flat))))[0]
+                else:
+                    bad = [0]
+                if len(bad) or np.asarray(got).shape != big.shape:
+                    i = int(bad[0])
+                    self.rep('large_array_vs_pieces', fname, '%s(%s -> %s) on %d elements (shape %s): %d elements differ from the piecewise conversion, first at flat index %d: %r, pieces give %r (input %r)' % (
+                        fname, a.code, b.code, flat.size, shape, len(bad), i, float(g[i]) if len(g) > i else None, float(piece[i]), float(flat[i])),
+                             {'function': fname, 'from': a.code, 'to': b.code, 'shape': list(shape), 'bad_indexes': [int(x) for x in bad[:10]], 'size': int(flat.size)})
 
     def verdict(self, monitor, fname, a, b, v, r, e, M, cache=None):
         """One result against the exact value; returns the error in eps*M."""
@@ -714,6 +746,7 @@ def run_shard(ctx, p):
                            evals, nt, exhaustive=True,
                            sample={'pair': [firsts[0].code, O.by_dim[firsts[0].group][-1].code], 'dimension': firsts[0].group,
                                    'values': pair_values(ctx.sub_rng('sample'), firsts[0], O.by_dim[firsts[0].group][-1])})
+            O.large_arrays(2 if ctx.tier == 'quick' else 12)
             # ---- B: triples
             dims = [us for us in O.by_dim.values() if len(us) >= 2]
             if p['all_triples']:
